@@ -20,7 +20,8 @@ type C02Case struct {
 	ReadMax int    `json:"readmax"` // backend reads at most this many octets (-1: all)
 	Reject  bool   `json:"reject"`
 	Limit   int64  `json:"limit"`
-	Cuts    []int  `json:"cuts"` // -1 in first position: one octet per segment; offsets are relative to the start of the message
+	Cuts    []int  `json:"cuts"`               // -1 in first position: one octet per segment; offsets are relative to the start of the message
+	LineMax int    `json:"line_max,omitempty"` // Server.MaxLineLength (0: default); above 4096 it exceeds the read buffer
 }
 
 const c02Follow = "MAIL FROM:<okmark1@x>\r\nRCPT TO:<okmark2@x>\r\nNOOP\r\n"
@@ -88,6 +89,7 @@ func c02Reference(mode string, rest []byte) tailObs {
 func evalC02(c C02Case) *h.Finding {
 	cfg, be := modeConfig(c.Mode)
 	cfg.MaxMessageBytes = c.Limit
+	cfg.MaxLineLength = c.LineMax
 	var verdict error
 	if c.Reject {
 		verdict = h.RejErr("message")
@@ -172,7 +174,7 @@ func C02(tier string) int {
 	if tier == "thorough" {
 		maxTok = 4
 	}
-	run.Rule = fmt.Sprintf("messages = all sequences of <=%d tokens from %q, terminated by CRLF.CRLF and followed by pipelined marker commands; x backend {reads all, 0, 1, n/2 octets} x {accept, reject} x size limit {none, n/2, n, n+10} x {SMTP, LMTP plain backend, LMTP per-recipient backend} x segmentation {one segment, one octet per segment, every 2-split from 4 octets before to 6 after the end marker}. Distinct by construction; non-trivial = message contains a bait command or a terminator look-alike. Oracle: no bait address reaches the backend; replies and backend calls after the final DATA reply equal those the lines after the first true end marker (ref.Unstuff) produce on a connection that just finished a trivial transaction (differential).", maxTok, c02Tokens)
+	run.Rule = fmt.Sprintf("messages = all sequences of <=%d tokens from %q, terminated by CRLF.CRLF and followed by pipelined marker commands; x backend {reads all, 0, 1, n/2 octets} x {accept, reject} x size limit {none, n/2, n, n+10} x {SMTP, LMTP plain backend, LMTP per-recipient backend} x segmentation {one segment, one octet per segment, every 2-split from 4 octets before to 6 after the end marker; one segment also with MaxLineLength 8192, i.e. above the read-buffer size}. Distinct by construction; non-trivial = message contains a bait command or a terminator look-alike. Oracle: no bait address reaches the backend; replies and backend calls after the final DATA reply equal those the lines after the first true end marker (ref.Unstuff) produce on a connection that just finished a trivial transaction (differential).", maxTok, c02Tokens)
 	run.Assumptions = []string{"reply codes of the DATA command itself are judged by C04/C06, not here", "the reference run (same server code, trivial message) defines what the follow-up commands do; only its agreement with the run under test is judged"}
 	var msgs [][]int
 	var rec func(cur []int)
@@ -218,8 +220,11 @@ func C02(tier string) int {
 						if li > 0 && lim == 0 {
 							continue // would mean "no limit" again
 						}
-						for _, cuts := range cutsList {
+						for ci, cuts := range append(cutsList, nil) {
 							c := C02Case{Mode: mode, Msg: msg, ReadMax: rm, Reject: rej, Limit: lim, Cuts: cuts}
+							if ci == len(cutsList) {
+								c.LineMax = 8192 // everything in one segment once more, with a line limit above the buffer size
+							}
 							f := evalC02(c)
 							run.Eval(nontrivial)
 							if f != nil {
